@@ -287,15 +287,15 @@ def search_case(rng, sc, cplx, seed=None):
         P[:, J] = ef.field
     Ri = R[np.ix_(ci, fi)]
     Pi = P[np.ix_(fi, ci)]
-    if np.max(np.abs(Ri - Pi.T)) > 1e-12:
+    if Ri.size and np.max(np.abs(Ri - Pi.T)) > 1e-12:
         k = np.unravel_index(np.argmax(np.abs(Ri - Pi.T)), Ri.shape)
         return dict(signature='restriction is not the transpose of prolongation on interior edges',
                     **base, coarse_row=int(k[0]), fine_col=int(k[1]),
                     R=str(Ri[k]), PT=str(Pi.T[k]))
-    if np.min(Pi.real) < -1e-14:
+    if Pi.size and np.min(Pi.real) < -1e-14:
         return dict(signature='negative prolongation weight', **base)
     # prolongation never touches boundary edges
-    if np.max(np.abs(P[~fi, :])) != 0:
+    if P[~fi, :].size and np.max(np.abs(P[~fi, :])) != 0:
         return dict(signature='prolongation writes a boundary edge', **base)
     # adds its correction
     cf = emg3d.Field(cg, frequency=freq)
